@@ -1,0 +1,244 @@
+//! Verification hooks. Only compiled with `--cfg meshless_voro_verif`.
+//!
+//! These functions expose crate-private building blocks (exact predicate,
+//! integer grid, neighbour stream, cycle bookkeeping, single clip steps and the
+//! auxiliary kNN / bounding sphere code) to an external verification harness.
+//! They add no behaviour: with the cfg flag off this module does not exist.
+
+use std::sync::Mutex;
+
+use glam::DVec3;
+use rstar::{RTreeNode, RTreeObject};
+
+use crate::bounding_sphere::{BoundingSphereSolver, Epos6, Welzl};
+use crate::geometry::{in_sphere_test_exact, Sphere};
+use crate::rtree_nn::{build_rtree, nn_iter, wrapping_nn_iter};
+use crate::simple_cycle::SimpleCycle;
+use crate::space::Space;
+use crate::voronoi::boundary::SimulationBoundary;
+use crate::voronoi::convex_cell::ConvexCell;
+use crate::voronoi::half_space::HalfSpace;
+pub use crate::voronoi::convex_cell::{WithFaces, WithoutFaces};
+pub use crate::voronoi::{Dimensionality, Generator};
+
+/// The exact in-sphere predicate on integer grid points.
+pub fn in_sphere_exact(a: [i64; 3], b: [i64; 3], c: [i64; 3], d: [i64; 3], v: [i64; 3]) -> f64 {
+    in_sphere_test_exact(&a, &b, &c, &d, &v)
+}
+
+/// Handle on the (crate private) simulation boundary / integer grid.
+#[derive(Clone)]
+pub struct Grid {
+    inner: SimulationBoundary,
+}
+
+impl Grid {
+    pub fn new(anchor: DVec3, width: DVec3, periodic: bool, dimensionality: Dimensionality) -> Self {
+        Self {
+            inner: SimulationBoundary::cuboid(anchor, width, periodic, dimensionality),
+        }
+    }
+
+    /// The real `iloc` (may hit its `debug_assert`s in debug builds).
+    pub fn iloc(&self, x: DVec3) -> [i64; 3] {
+        self.inner.iloc(x)
+    }
+
+    /// The value in `[1, 2)` whose mantissa `iloc` reads, without assertions.
+    pub fn iloc_raw(&self, x: DVec3) -> DVec3 {
+        self.inner.verif_iloc_raw(x)
+    }
+
+    /// `(anchor, inverse_width)` as stored by the boundary.
+    pub fn params(&self) -> (DVec3, DVec3) {
+        self.inner.verif_params()
+    }
+
+    /// `(n, p, right_idx, shift)` of the wall half spaces.
+    pub fn walls(&self) -> Vec<(DVec3, DVec3)> {
+        self.inner.clipping_planes.iter().map(|h| (h.plane.n, h.plane.p)).collect()
+    }
+}
+
+/// Generators as the crate builds them (unused coordinates zeroed).
+pub fn make_generators(locs: &[DVec3], dimensionality: Dimensionality) -> Vec<Generator> {
+    locs.iter().enumerate().map(|(id, &loc)| Generator::verif_new(id, loc, dimensionality)).collect()
+}
+
+/// The complete neighbour stream a cell with generator `query_idx` would consume
+/// (not truncated by the safety radius): `(id, shift)` in visiting order.
+pub fn nn_visits(
+    locs: &[DVec3],
+    query_idx: usize,
+    width: DVec3,
+    dimensionality: Dimensionality,
+    periodic: bool,
+) -> Vec<(usize, Option<DVec3>)> {
+    let generators = make_generators(locs, dimensionality);
+    let rtree = build_rtree(&generators);
+    let loc = generators[query_idx].loc();
+    let it = if periodic {
+        wrapping_nn_iter(&rtree, loc, width, dimensionality)
+    } else {
+        nn_iter(&rtree, loc)
+    };
+    it.collect()
+}
+
+/// A node of the bulk-loaded R-tree: envelope and children / leaf id.
+#[derive(Clone, Debug)]
+pub enum TreeDump {
+    Leaf { id: usize, loc: [f64; 3] },
+    Node { lower: [f64; 3], upper: [f64; 3], children: Vec<TreeDump> },
+}
+
+fn dump_node(node: &RTreeNode<Generator>) -> TreeDump {
+    match node {
+        RTreeNode::Leaf(g) => TreeDump::Leaf {
+            id: g.id(),
+            loc: [g.loc().x, g.loc().y, g.loc().z],
+        },
+        RTreeNode::Parent(p) => {
+            let e = p.envelope();
+            TreeDump::Node {
+                lower: e.lower(),
+                upper: e.upper(),
+                children: p.children().iter().map(dump_node).collect(),
+            }
+        }
+    }
+}
+
+/// Dump of the R-tree the neighbour search runs on (children of the root).
+pub fn rtree_dump(locs: &[DVec3], dimensionality: Dimensionality) -> Vec<TreeDump> {
+    let generators = make_generators(locs, dimensionality);
+    let rtree = build_rtree(&generators);
+    rtree.root().children().iter().map(dump_node).collect()
+}
+
+/// Initial (box) cell of a generator.
+pub fn cell_init(loc: DVec3, idx: usize, grid: &Grid) -> ConvexCell<WithoutFaces> {
+    ConvexCell::verif_init(loc, idx, &grid.inner)
+}
+
+/// One clipping step with an arbitrary half space.
+pub fn cell_clip(
+    cell: &mut ConvexCell<WithoutFaces>,
+    n: DVec3,
+    p: DVec3,
+    right_idx: Option<usize>,
+    shift: Option<DVec3>,
+    generators: &[Generator],
+    grid: &Grid,
+) {
+    cell.verif_clip(HalfSpace::new(n, p, right_idx, shift), generators, &grid.inner)
+}
+
+/// Safety radius of a cell under construction.
+pub fn cell_safety_radius(cell: &ConvexCell<WithoutFaces>) -> f64 {
+    cell.verif_safety_radius()
+}
+
+/// One decision of the clipping loop.
+#[derive(Clone, Debug)]
+pub struct Decision {
+    pub cell: usize,
+    pub dual: [usize; 3],
+    /// Value of the floating point filter (`0.` = inconclusive).
+    pub filter: f64,
+    /// Grid points `a, b, c, d, v` handed to the exact predicate (if it was used).
+    pub exact_args: Option<[[i64; 3]; 5]>,
+    /// Final value compared with `0.`.
+    pub clip: f64,
+}
+
+static TRACE: Mutex<Option<Vec<Decision>>> = Mutex::new(None);
+
+/// Start recording clip decisions (process wide).
+pub fn trace_start() {
+    *TRACE.lock().unwrap() = Some(vec![]);
+}
+
+/// Stop recording and return the decisions, sorted by cell (stable), so that the
+/// result does not depend on the thread schedule.
+pub fn trace_take() -> Vec<Decision> {
+    let mut t = TRACE.lock().unwrap().take().unwrap_or_default();
+    t.sort_by_key(|d| d.cell);
+    t
+}
+
+pub(crate) fn trace_decision(
+    cell: usize,
+    dual: [usize; 3],
+    filter: f64,
+    exact_args: Option<[[i64; 3]; 5]>,
+    clip: f64,
+) {
+    if let Ok(mut guard) = TRACE.lock() {
+        if let Some(t) = guard.as_mut() {
+            t.push(Decision {
+                cell,
+                dual,
+                filter,
+                exact_args,
+                clip,
+            });
+        }
+    }
+}
+
+/// `SimpleCycle` with its private state observable.
+pub struct Cycle {
+    inner: SimpleCycle,
+}
+
+impl Cycle {
+    pub fn new(capacity: usize) -> Self {
+        Self {
+            inner: SimpleCycle::new(capacity),
+        }
+    }
+    pub fn grow(&mut self) {
+        self.inner.grow()
+    }
+    pub fn init(&mut self, a: usize, b: usize, c: usize) {
+        self.inner.init(a, b, c)
+    }
+    pub fn try_extend(&mut self, a: usize, b: usize, c: usize) -> bool {
+        self.inner.try_extend(a, b, c).is_ok()
+    }
+    /// `(ptrs, start, len)`
+    pub fn state(&self) -> (Vec<usize>, usize, usize) {
+        self.inner.verif_state()
+    }
+    /// The first `len + 1` items of the iterator, as `clip_by_plane` consumes it.
+    pub fn walk(&self) -> Vec<usize> {
+        self.inner.iter().take(self.inner.len + 1).collect()
+    }
+}
+
+/// Uniform grid k nearest neighbours (reference code in `space.rs`).
+pub fn space_knn(anchor: DVec3, width: DVec3, max_cell_width: f64, points: &[DVec3], k: usize) -> Vec<Vec<usize>> {
+    let mut space = Space::new(anchor, width, max_cell_width);
+    space.add_parts(points);
+    space.knn(k)
+}
+
+/// Exact (Welzl) bounding sphere: `(center, radius)`.
+pub fn welzl(points: &[DVec3]) -> (DVec3, f64) {
+    let s = Welzl::bounding_sphere(points);
+    (s.center, s.radius)
+}
+
+/// Approximate (EPOS-6) bounding sphere of points.
+pub fn epos6(points: &[DVec3]) -> (DVec3, f64) {
+    let s = Epos6::bounding_sphere(points);
+    (s.center, s.radius)
+}
+
+/// Approximate (EPOS-6) bounding sphere of spheres.
+pub fn epos6_spheres(spheres: &[(DVec3, f64)]) -> (DVec3, f64) {
+    let spheres: Vec<Sphere> = spheres.iter().map(|&(c, r)| Sphere::new(c, r)).collect();
+    let s = Epos6::bounding_sphere_of_spheres(&spheres);
+    (s.center, s.radius)
+}
